@@ -187,17 +187,32 @@ class World:
             return MISSING if b is None else json.loads(b)
         raise ValueError(s)
 
-    def write(self, res, data):
-        """The outside writer."""
+    def write(self, res, data, older=None):
+        """The outside writer.  Its write always changes (st_size, st_mtime_ns); the new mtime is
+        normally later than every earlier one, but an outside writer may also leave an OLDER
+        timestamp (a restored backup, `cp -p`, `mv` of a file prepared earlier, a clock that is
+        behind): `older=True`, or - by a deterministic function of the content - one in three of the
+        rewrites that keep the file's size."""
         s = self.fam.store
         if s == "json":
+            import zlib
             p = self.path(res)
+            blob = json.dumps(data).encode()
+            try:
+                before = os.stat(p)
+            except FileNotFoundError:
+                before = None
             with open(p, "wb") as f:
-                f.write(json.dumps(data).encode())
+                f.write(blob)
             # make sure (st_size, st_mtime_ns) differs from any earlier state
             st = os.stat(p)
             self._bump = getattr(self, "_bump", 0) + 1
-            os.utime(p, ns=(st.st_atime_ns, st.st_mtime_ns + 1000 * self._bump))
+            if older is None:
+                older = before is not None and before.st_size == len(blob) and zlib.crc32(blob) % 3 == 0
+            if older and before is not None:
+                os.utime(p, ns=(st.st_atime_ns, before.st_mtime_ns - 10_000_000 - 1000 * self._bump))
+            else:
+                os.utime(p, ns=(st.st_atime_ns, st.st_mtime_ns + 1000 * self._bump))
         elif s == "redis":
             self.redis.data["r%d" % res] = json.dumps(data).encode()
         elif s == "mongo":
